@@ -12,6 +12,7 @@ import (
 	"github.com/scionproto/scion/pkg/slayers"
 	spathpkg "github.com/scionproto/scion/pkg/slayers/path"
 	"github.com/scionproto/scion/pkg/slayers/path/empty"
+	"github.com/scionproto/scion/pkg/slayers/path/epic"
 	"github.com/scionproto/scion/pkg/slayers/path/onehop"
 	"github.com/scionproto/scion/pkg/slayers/path/scion"
 	"github.com/scionproto/scion/pkg/snet"
@@ -86,6 +87,20 @@ func (ps PathSpec) SlayersPath() (spathpkg.Path, error) {
 			return nil, err
 		}
 		return r, nil
+	case "epic": // EPIC-HP: a SCION path with a packet id and two hop validation fields in front (one-way: replies use the SCION path)
+		inner := ps
+		inner.Kind = "scion"
+		sp, err := inner.SlayersPath()
+		if err != nil {
+			return nil, err
+		}
+		v := mix(ps.Seed + 17)
+		return &epic.Path{
+			PktID:     epic.PktID{Timestamp: uint32(v), Counter: uint32(v >> 32)},
+			PHVF:      []byte{byte(v >> 8), byte(v >> 16), byte(v >> 24), byte(v >> 40)},
+			LHVF:      []byte{byte(v >> 12), byte(v >> 20), byte(v >> 28), byte(v >> 44)},
+			ScionPath: sp.(*scion.Raw),
+		}, nil
 	}
 	return nil, fmt.Errorf("unknown path kind %q", ps.Kind)
 }
@@ -115,7 +130,7 @@ type Pkt struct {
 	Src, Dst         netip.Addr
 	Path             spathpkg.Path
 	TrafficClass     uint8
-	FlowID           uint32 // 0: 1
+	FlowID           uint32                    // 0: 1
 	E2E              []*slayers.EndToEndOption // nil: no end-to-end extension
 	HBH              bool                      // add an (empty-ish) hop-by-hop extension
 	SrcPort, DstPort uint16
@@ -337,6 +352,12 @@ func ReversePath(p spathpkg.Path) ([]byte, spathpkg.Type, error) {
 			return nil, 0, err
 		}
 		return out, scion.PathType, nil
+	case epic.PathType: // EPIC-HP protects one direction only: the reply travels over the reversed SCION path inside
+		ep, ok := p.(*epic.Path)
+		if !ok || ep.ScionPath == nil {
+			return nil, 0, fmt.Errorf("unexpected EPIC path representation %T", p)
+		}
+		return ReversePath(ep.ScionPath)
 	case 2: // one-hop: becomes the two-hop SCION path, seen from the receiver
 		raw := make([]byte, p.Len())
 		if err := p.SerializeTo(raw); err != nil {
@@ -360,4 +381,3 @@ func ReversePath(p spathpkg.Path) ([]byte, spathpkg.Type, error) {
 	}
 	return nil, 0, fmt.Errorf("path type %d", p.Type())
 }
-
